@@ -2,6 +2,8 @@
 //!   ssa <hex source>         -> `<model input dump> => <canonical SsaAnalysisResult>` | `syntax`
 //!   sig <hex source>         -> `<toplevel dump> => <canonical ModuleSignature>` | `syntax`
 //!   check <hex json>         -> verdict of the real parser + checker on a set of modules (with std)
+//!   cls <hex expression>     -> `<shape dump> => 0|1`: the checker's own `arguments_should_be_checked_without_hint`
+//!                               (hook verif_hooks_c13) on the parsed expression | `syntax`
 use samlang_errors::ErrorSet;
 use samlang_heap::{Heap, ModuleReference, PStr};
 use samverif_harness::scopedump::Dumper;
@@ -159,6 +161,77 @@ fn check(json: &str) -> String {
   format!("rejected {} {}", kinds.len(), kinds.join(","))
 }
 
+/// shape of an expression as `Model/C13Hint.lean` sees it (structure only; the decision is the hook's)
+fn shape(e: &samlang_ast::source::expr::E<()>, out: &mut String) {
+  use samlang_ast::source::expr;
+  fn block(b: &expr::Block<()>, out: &mut String) {
+    out.push_str("( b ");
+    match &b.expression {
+      Some(f) => shape(f, out),
+      None => out.push_str("- "),
+    }
+    out.push_str(") ");
+  }
+  fn if_else(i: &expr::IfElse<()>, out: &mut String) {
+    out.push_str("( if ");
+    match &i.e1.expression {
+      Some(f) => shape(f, out),
+      None => out.push_str("- "),
+    }
+    match i.e2.as_ref() {
+      expr::IfElseOrBlock::IfElse(n) => if_else(n, out),
+      expr::IfElseOrBlock::Block(b) => block(b, out),
+    }
+    out.push_str(") ");
+  }
+  match e {
+    expr::E::Literal(_, _)
+    | expr::E::LocalId(_, _)
+    | expr::E::ClassId(_, _, _)
+    | expr::E::Tuple(_, _)
+    | expr::E::FieldAccess(_)
+    | expr::E::MethodAccess(_)
+    | expr::E::Unary(_)
+    | expr::E::Binary(_) => out.push_str("s "),
+    expr::E::Call(_) => out.push_str("c "),
+    expr::E::IfElse(i) => if_else(i, out),
+    expr::E::Match(m) => {
+      out.push_str("( m ");
+      for c in &m.cases {
+        shape(&c.body, out);
+      }
+      out.push_str(") ");
+    }
+    expr::E::Lambda(l) => {
+      out.push_str("( l ");
+      if l.parameters.parameters.is_empty() {
+        out.push('-');
+      }
+      for p in &l.parameters.parameters {
+        out.push(if p.annotation.is_some() { '1' } else { '0' });
+      }
+      out.push(' ');
+      shape(&l.body, out);
+      out.push_str(") ");
+    }
+    expr::E::Block(b) => block(b, out),
+  }
+}
+
+fn cls(src: &str) -> String {
+  let mut heap = Heap::new();
+  let mref = heap.alloc_module_reference_from_string_vec(vec!["Test".to_string()]);
+  let mut errors = ErrorSet::new();
+  let (_, e) = samlang_parser::parse_source_expression_from_text(src, mref, &mut heap, &mut errors);
+  if errors.has_errors() {
+    return "syntax".to_string();
+  }
+  let mut out = String::new();
+  shape(&e, &mut out);
+  let r = samlang_checker::verif_hooks_c13::arguments_should_be_checked_without_hint(&e);
+  format!("{}=> {}", out, r as u8)
+}
+
 fn main() {
   std::panic::set_hook(Box::new(|_| {}));
   for_each_line(|line| {
@@ -168,6 +241,7 @@ fn main() {
       "ssa" => ssa(&arg),
       "sig" => sig(&arg),
       "check" => check(&arg),
+      "cls" => cls(&arg),
       _ => "bad-op".to_string(),
     }));
     match r {
